@@ -44,6 +44,10 @@ def arcovar_marple(x, order):
 
     #   ----------------------------------------------------- Initialization
     x = np.array(x)
+    # integer samples (e.g. 16-bit PCM data) must not be multiplied in their
+    # own (possibly narrow) dtype
+    if x.dtype.kind in 'iub':
+        x = x.astype(float)
     N = len(x)
 
 
